@@ -146,6 +146,13 @@ def jobs(tier, seed):
     return js
 
 
+
+def extra_checks(tier, seed):
+    """second engine (CrossHair) on the function-level harnesses of xh.xh_c16"""
+    from symx import xh
+    return xh.run('xh.xh_c16', tier)
+
+
 META = {
     'rule': 'one case = one feasible path: (Part A) an order/overlap type of n symbolic segments; (Part B) one drop pattern '
             '(symbolic Booleans per transmission index); non-trivial = at least one packet dropped / any segment sequence',
